@@ -19,6 +19,9 @@ enum Job {
     Route(usize),
     MergeSources,
     MergeDiamond { shuffle_one: bool },
+    /// diamond whose second branch lets through almost nothing (x % 7 == 6): one input of the
+    /// merge stays silent while the other is flooded
+    MergeSilentBranch,
     Broadcast,
     /// zip of two sources with the given lengths; sequential (single replica sources) or parallel
     Zip { a: usize, b: usize, parallel: bool },
@@ -85,6 +88,14 @@ fn scenario_on(job: Job, n: usize, layout: Layout, cap: usize, batch: BatchMode,
                 } else {
                     a.merge(b).collect_vec()
                 };
+                env.execute_blocking();
+                log_sink("out0", host, o.get());
+            }
+            Job::MergeSilentBranch => {
+                let mut v = par(n, 0).split(2);
+                let b = v.pop().unwrap().filter(|x| x % 7 == 6).map(|x| x + 1000);
+                let a = v.pop().unwrap();
+                let o = a.merge(b).collect_vec();
                 env.execute_blocking();
                 log_sink("out0", host, o.get());
             }
@@ -174,6 +185,15 @@ fn scenario_on(job: Job, n: usize, layout: Layout, cap: usize, batch: BatchMode,
                     return Err(bad("union", &got, &exp));
                 }
             }
+            Job::MergeSilentBranch => {
+                let mut exp = all.clone();
+                exp.extend((0..n as i64).filter(|x| x % 7 == 6).map(|x| vec![1000 + x]));
+                exp.sort();
+                let got = rows("out0")?;
+                if got != exp {
+                    return Err(bad("union", &got, &exp));
+                }
+            }
             Job::Broadcast => {
                 let mut per: BTreeMap<(u64, u64, u64), Vec<i64>> = BTreeMap::new();
                 for e in &r.log {
@@ -242,7 +262,7 @@ fn tag(j: &Job) -> &'static str {
     match j {
         Job::Split(_) => "split",
         Job::Route(_) => "route",
-        Job::MergeSources | Job::MergeDiamond { .. } => "merge",
+        Job::MergeSources | Job::MergeDiamond { .. } | Job::MergeSilentBranch => "merge",
         Job::Broadcast => "broadcast",
         Job::Zip { .. } => "zip",
     }
@@ -258,7 +278,7 @@ fn build(tier: Tier) -> Vec<Scenario> {
     };
     for (p, cap, batch) in cfgs {
         for n in [0usize, 7] {
-            for job in [Job::Split(2), Job::Split(3), Job::Route(2), Job::Route(3), Job::MergeSources, Job::MergeDiamond { shuffle_one: false }, Job::MergeDiamond { shuffle_one: true }, Job::Broadcast] {
+            for job in [Job::Split(2), Job::Split(3), Job::Route(2), Job::Route(3), Job::MergeSources, Job::MergeDiamond { shuffle_one: false }, Job::MergeDiamond { shuffle_one: true }, Job::MergeSilentBranch, Job::Broadcast] {
                 out.push(scenario(job, n, p, cap, batch, bound));
             }
         }
@@ -271,6 +291,16 @@ fn build(tier: Tier) -> Vec<Scenario> {
             }
         }
     }
+    // zip with timed receives: a FlushBatch can reach the zip while one side has run ahead and
+    // the other has almost caught up (element-sized batches, early timer firings as deviations)
+    for (a, b) in [(6usize, 6usize), (6, 5), (5, 6), (8, 8)] {
+        if tier == Tier::Quick && a == 8 {
+            continue;
+        }
+        out.push(scenario(Job::Zip { a, b, parallel: false }, a.max(b), 1, 0, BatchMode::adaptive(1, std::time::Duration::from_millis(10)), bound));
+        out.push(scenario(Job::Zip { a, b, parallel: false }, a.max(b), 2, 0, BatchMode::adaptive(2, std::time::Duration::from_millis(10)), bound));
+    }
+    out.push(zip_timed(if tier == Tier::Quick { 7 } else { 10 }));
     // two hosts: split/route/merge/broadcast/zip across the (virtual) network
     for layout in [Layout::Remote(vec![1, 1]), Layout::Remote(vec![2, 1])] {
         if tier == Tier::Quick && layout.total_cores() == 3 {
@@ -336,6 +366,81 @@ fn zip_timestamped(a: usize, b: usize, off: i64) -> Scenario {
         }
         None
     }))
+}
+
+/// zip with timed receives: bursts of one side, bursts of the other, idle periods (the block's
+/// `Start` reports a batch timeout) in between.
+fn zip_timed(maxn: usize) -> Scenario {
+    use crate::e2::{drive_binary_steps, loop_scenario, FailSet, Step};
+    use renoir::{RuntimeConfig, StreamContext};
+    loop_scenario(
+        format!("C09/zip-timed/n{maxn}"),
+        format!("zip of two sequential inputs fed in two phases - a burst of a1 left and b1 right element batches (either side first), an idle period, a2 left and b2 right, an idle period, then the ends - for all a1,b1,a2,b2 <= {maxn}, adaptive batching: the block idles (FlushBatch) while one side has run ahead"),
+        Arc::new(move || {
+            let mut cases = 0;
+            let mut nontrivial = 0;
+            let mut fails = FailSet::default();
+            for a1 in 0..=maxn {
+                for b1 in 0..=maxn {
+                    for a2 in 0..=maxn.min(3) {
+                        for b2 in 0..=maxn.min(3) {
+                            for left_first in [true, false] {
+                                if fails.full() || crate::e2::out_of_time() {
+                                    continue;
+                                }
+                                cases += 1;
+                                if a1.min(b1) >= 1 && a1 != b1 {
+                                    nontrivial += 1;
+                                }
+                                let mut steps: Vec<Step<i64, i64>> = vec![];
+                                let (mut l, mut r) = (0i64, 100i64);
+                                for (na, nb) in [(a1, b1), (a2, b2)] {
+                                    let mut push_l = |steps: &mut Vec<Step<i64, i64>>| {
+                                        for _ in 0..na {
+                                            steps.push(Step::Left(vec![StreamElement::Item(l)]));
+                                            l += 1;
+                                        }
+                                    };
+                                    let mut push_r = |steps: &mut Vec<Step<i64, i64>>| {
+                                        for _ in 0..nb {
+                                            steps.push(Step::Right(vec![StreamElement::Item(r)]));
+                                            r += 1;
+                                        }
+                                    };
+                                    if left_first {
+                                        push_l(&mut steps);
+                                        push_r(&mut steps);
+                                    } else {
+                                        push_r(&mut steps);
+                                        push_l(&mut steps);
+                                    }
+                                    steps.push(Step::Idle);
+                                }
+                                steps.push(Step::Left(vec![StreamElement::FlushAndRestart]));
+                                steps.push(Step::Right(vec![StreamElement::FlushAndRestart]));
+                                steps.push(Step::Left(vec![StreamElement::Terminate]));
+                                steps.push(Step::Right(vec![StreamElement::Terminate]));
+                                let env = StreamContext::new(RuntimeConfig::local(1).unwrap());
+                                let s1 = env.stream(ScriptSource::<i64>::new(vec![], Replication::One));
+                                let s2 = env.stream(ScriptSource::<i64>::new(vec![], Replication::One));
+                                let out = drive_binary_steps(s1.zip(s2).verif_into_chain(), steps, BatchMode::adaptive(1024, std::time::Duration::from_millis(10)));
+                                let pairs: Vec<(i64, i64)> = out.iter().filter_map(|e| if let StreamElement::Item(p) = e { Some(*p) } else { None }).collect();
+                                let n = (a1 + a2).min(b1 + b2) as i64;
+                                let exp: Vec<(i64, i64)> = (0..n).map(|i| (i, 100 + i)).collect();
+                                if pairs != exp {
+                                    fails.add(Some(Fail::new(
+                                        if pairs.len() != exp.len() { "c09-zip-count" } else { "c09-zip-not-positional" },
+                                        format!("zip, adaptive batching, phase 1: {a1} left / {b1} right batches ({} first), idle, phase 2: {a2} left / {b2} right, idle, ends: pairs {:?}, expected {:?}", if left_first { "left" } else { "right" }, pairs, exp),
+                                    )));
+                                }
+                            }
+                        }
+                    }
+                }
+            }
+            (cases, nontrivial, fails.first())
+        }),
+    )
 }
 
 pub fn spec() -> PropSpec {
